@@ -48,7 +48,7 @@ PLAN["C15"] = dict(
 
 PLAN["C06"] = dict(
     rule="enumeration: all triples (subject, pattern, replacement) of strings over {a,b} (subject length <= 4, others <= 3; thorough 6/4) and over {a,b,c} (3/2), each with every index in [-2,|s|+2] u {i32::MIN, MIN+1, MAX-1, MAX} and 8 length values; "
-         "generation: tapes decoded into a subject of length 0-12 over {a,b,c,0,0x2FFFF}, a pattern that is a substring / a repetition aa.. / independent, a replacement that may contain the pattern, 3 index and 2 length integers biased to -2..2, |s|-2..|s|+2 and i32 extremes. "
+         "a near-unary family with closed-form answers and an aggregate-collision family (windows and patterns of equal length that share their ends, their multiset of characters, the xor of their characters, or whose position-wise differences sum to 2^8 / 2^16 / 2^32, up to 65538 characters); generation: tapes decoded into a subject of length 0-12 over {a,b,c,0,0x2FFFF}, a pattern that is a substring / a repetition aa.. / independent, a replacement that may contain the pattern, 3 index and 2 length integers biased to -2..2, |s|-2..|s|+2 and i32 extremes. "
          "Non-trivial = non-empty pattern occurring in the subject, or an index within 1 of 0 or of |s|; distinct = digest of the decoded tuple / by construction.",
     oracle="R7: SMT-LIB 2.6 definitions written on Vec<u32> with i64 arithmetic (indexof = least n >= i with an occurrence at n for 0 <= i <= |s|; replace = leftmost occurrence, empty pattern at 0; replace_all = left-to-right non-overlapping, identity for the empty pattern); exact equality for all ten functions",
     assumptions=COMMON_ASSUMPTIONS,
